@@ -95,6 +95,13 @@ class VfsRequest(request.SmartServerRequest):
         # %2E) only becomes visible below the chroot.  Refuse any path whose
         # fully decoded form climbs out of the root (joinpath raises).
         urlutils.joinpath("/", urlutils.unescape(result))
+        # Every layer below (userdir expansion, chroot) treats a path segment
+        # as one name, so a segment must not turn into a separator or a dot
+        # segment when it is decoded further down.
+        for segment in result.split("/"):
+            decoded = urlutils.unescape(segment)
+            if decoded != segment and ("/" in decoded or decoded in (".", "..")):
+                raise urlutils.InvalidURLJoin("Encoded path separator", "/", result)
         return result
 
 
